@@ -252,9 +252,28 @@ def finish(prop, modname, mod, tier, seed, subs, results, t0, write=True):
         for k, v in (r.get('realizations') or {}).items():
             realizations[k] = realizations.get(k, 0) + v
         if r.get('validation_mismatch'):
-            errors.append('%s: completed-path witness does not replay cleanly'
-                          ' on the unstubbed code: %s' % (
-                              r['name'], json.dumps(r['validation_mismatch'])[:1500]))
+            # A witness of a path that passed symbolically fails when it is
+            # run on the unstubbed code.  If what fails there is one of the
+            # property's own assertions, the concrete run on the real code is
+            # the ground truth: it is reported as a violation found at the
+            # replay stage (the engine's model diverged from the interpreter,
+            # e.g. functools.lru_cache is bypassed under the tracer).  Anything
+            # else is a harness error.
+            promoted = False
+            for bad in r['validation_mismatch']:
+                out = bad.get('outcome') or []
+                if out and out[0] == 'violation' and not r.get('violation'):
+                    r['violation'] = {'label': out[1], 'witness': bad['witness'],
+                                      'info': {'found_at': 'replay of a '
+                                               'completed path on the '
+                                               'unstubbed code'}}
+                    promoted = True
+                    break
+            if not promoted:
+                errors.append('%s: completed-path witness does not replay '
+                              'cleanly on the unstubbed code: %s' % (
+                                  r['name'],
+                                  json.dumps(r['validation_mismatch'])[:1500]))
         if r.get('violation'):
             violations.append(r)
         for fid, ent in (r.get('known') or {}).items():
